@@ -175,6 +175,10 @@ impl Prop for C02 {
         ]
     }
 
+    fn mix(&self, prev: &Case, cur: &Case) -> Vec<Case> {
+        // the current left operand with the previous right operand, and the other way round
+        vec![Case { y: prev.y, ..cur.clone() }, Case { x: prev.x, ..cur.clone() }]
+    }
     fn check(&self, case: &Case, ctx: &mut Ctx) {
         let md = set_mode(case.mode);
         ctx.label(mode_label(md));
